@@ -35,7 +35,12 @@ func Harness_C19_ValidateKeys() {
 		delete(k, "publicKeyJwk")
 		k["publicKeyBase58"] = anyJSON2("b58")
 	case 5:
-		k["publicKeyJwk"] = map[string]interface{}{"kty": anyJSONLeaf("kty"), "crv": anyJSONLeaf("crv"), "x": anyJSONLeaf("x"), "n": anyJSONLeaf("n"), "e": anyJSONLeaf("e")}
+		j := map[string]interface{}{"kty": "EC", "crv": "P-256", "x": "x", "n": "n", "e": "e"}
+		if verifrt.Choose("rsa", 2) == 1 {
+			j["kty"] = "RSA"
+		}
+		j[[]string{"kty", "crv", "x", "n", "e"}[verifrt.Choose("jwk-member", 5)]] = anyJSONLeaf("jwk-leaf")
+		k["publicKeyJwk"] = j
 	}
 	var entry interface{} = k
 	if verifrt.Choose("entry-kind", 3) == 1 {
